@@ -176,4 +176,77 @@ CHECKS = {
         note="trusted: std integer comparison / TryFrom; floats finite; slice comparison is lexicographic over the element order",
         technique="static analysis: abstract interpretation of the typed HIR over value classes + law checking on the finite table",
         design_ref="DESIGN.md section 4 C08"),
+    "C09": dict(
+        category="other",
+        text="Panic-site inventory: every panic-capable construct (unwrap/expect, indexing, panic-family macros, asserts, "
+             "overflow checks) in functions reachable (MIR call graph, closures included) from interpret_ir and from the hint API "
+             "an adapter may call during execution must carry an audit entry (function, construct, count -> class + reason) or be a "
+             "listed known finding; an unaudited or additional site is a violation. The guards the audit leans on are checked "
+             "structurally: arguments validated before the first adapter call (G-ARGS), carrier bracket discipline (C02 r1/r3), "
+             "operand types validated by the frontend (G-OPTYPES). Decides that the reachable set equals the audited set and that "
+             "guards are in place, not that every audited reason is true for all inputs.",
+        note="trusted: the hand-made audit reasons; the curated list of panicking std APIs; the adapter honours its contract; "
+             "seven genuine defects are listed in known_findings.json",
+        technique="static analysis: call-graph reachability + panic-site inventory against an audit table + structural guard rules",
+        design_ref="DESIGN.md section 4 C09"),
+    "C10": dict(
+        category="other",
+        text="Panic-site inventory as in C09 with entries frontend::parse / parse_to_ir (query text + schema): the reachable set "
+             "of panic-capable constructs must equal the audited set; guards checked structurally (validation against the schema "
+             "before lowering, root directives rejected before the root assertions, operand types validated and errors "
+             "propagated); operand_types_valid and its five validity functions are abstractly evaluated for every operator x "
+             "property type x right-hand side and never reach a panic.",
+        note="trusted: audit reasons made by reading; async-graphql-parser returns well-formed documents and does not panic itself",
+        technique="static analysis: call-graph reachability + panic-site inventory + abstract evaluation of the operand-type validators",
+        design_ref="DESIGN.md section 4 C10"),
+    "C19": dict(
+        category="other",
+        text="Panic-site inventory with entries Schema::parse / Schema::new (reachable set = audited set + listed known findings); "
+             "Schema::new calls all seven validation passes, merges their errors and returns Ok exactly when none was reported; "
+             "every InvalidSchemaError variant is still constructed (no rule silently dropped). Not decided: that the implemented "
+             "rules are exactly the documented ones.",
+        note="trusted: audit reasons; async-graphql-parser rejects empty documents; seven genuine panics are listed in known_findings.json",
+        technique="static analysis: call-graph reachability + panic-site inventory + must-call / merge path rule",
+        design_ref="DESIGN.md section 4 C19"),
+    "C20": dict(
+        category="other",
+        text="Narrow: the (type, property), (type, edge) and entry-point names declared in the introspection schema file are "
+             "exactly the string-dispatch arms of the introspection adapter (both directions); every property arm reads the "
+             "accessor of the same name on its own vertex kind; every arm is built by the contract helpers "
+             "resolve_property_with / resolve_neighbors_with and no coercion is reachable; the semantic accessors read what "
+             "they name (to_many = list, at_least_one = non-null, is_interface = interface kind), properties/edges partition "
+             "fields by vertex-typedness, entry points are the root query type's fields and the root type is not a vertex type.",
+        note="trusted: async-graphql-parser's TypeDefinition/FieldDefinition meaning; exactness for a concrete schema is not decided beyond these clauses",
+        technique="static analysis: string-dispatch table extraction vs the schema file + accessor footprint rules over typed HIR",
+        design_ref="DESIGN.md section 4 C20"),
+    "C21": dict(
+        category="other",
+        text="For each adapter call site of the engine: the vertex id used for the type name, the one the contexts were activated "
+             "on and the one in ResolveInfo/ResolveEdgeInfo have the same origin; property/edge/parameters come from the same IR "
+             "node; coercion is called with (coerced_from_type, type_name) of one vertex and recursion re-coerces with (edge "
+             "endpoint type, coerce_to); make_edge_parameters is abstractly evaluated over declared (nullable?, default?) x "
+             "supplied (absent/valid/ill-typed) plus an undeclared argument: result holds exactly the declared names with explicit, "
+             "default or null values, otherwise the matching errors.",
+        note="trusted: well-formed IR (C11); Type / collection models",
+        technique="static analysis: same-origin provenance of call arguments + abstract evaluation of edge-parameter construction",
+        design_ref="DESIGN.md section 4 C21"),
+    "C22": dict(
+        category="other",
+        text="The data flow into the minimum-size argument of fold materialisation depends on every observer of the fold (outputs "
+             "inside, nested fold outputs, count output, count tags used by parent filters and sibling folds); the max/min limit "
+             "functions and collect_fold_elements are abstractly evaluated for every set of one or two count filters over small "
+             "values and every true fold size: early-terminated outcome equals the full-materialisation outcome; every post-filter "
+             "is applied after materialisation; the maximum path discards only after pulling exactly one element beyond the limit.",
+        note="trusted: count filters compare integers (frontend type check); collection/iterator model (stdmodel.py); uniformity beyond the small values enumerated",
+        technique="static analysis: data-flow dependence of the truncation decision + abstract interpretation of the limit functions",
+        design_ref="DESIGN.md section 4 C22"),
+    "C25": dict(
+        category="other",
+        text="Narrow: check_adapter_invariants runs the three sibling checkers; each (located as the function calling the resolver "
+             "under test) holds the same three obligations: an outcome assertion on every yielded item inside the loop, an equality "
+             "assertion on the number of contexts, and an equality assertion on the order tags of given vs received contexts; probe "
+             "contexts have no active vertex and a distinct order tag from the loop variable. Not decided: completeness over all schemas.",
+        note="trusted: assert macros' expansion as seen in HIR; edges with required parameters are skipped by the checker itself",
+        technique="static analysis: sibling-agreement of assertion obligations over typed HIR",
+        design_ref="DESIGN.md section 4 C25"),
 }
